@@ -41,7 +41,7 @@ def make_lit(kind, k):
     if kind == "lang":
         return ["lit", ["hola", "b c", "x", "y z"][k], LANGSTRING, "en"]
     if kind == "lang2":
-        return ["lit", ["colour", "b", "x", "y"][k], LANGSTRING, ["en-GB", "es-419", "de-CH-1996", "zh-Hant-TW"][k]]
+        return ["lit", ["hola", "b c", "x", "y"][k], LANGSTRING, ["en-GB", "es-419", "de-CH-1996", "zh-Hant-TW"][k]]
     if kind == "integer":
         return ["lit", ["0", "1", "-5", "+3"][k], XSD + "integer", ""]
     if kind == "int":
@@ -104,6 +104,9 @@ def general(draw, max_classes=4, max_nodes=7, max_props=4, max_stmts=30, bnodes=
         nodes = [["iri", n[1] + "\u00fc"] if (n[0] == "iri" and i % 3 == 0) else n for i, n in enumerate(nodes)]
     if colon_locals:
         nodes = [["iri", n[1] + ":x%d" % i] if (n[0] == "iri" and i % 2 == 0) else n for i, n in enumerate(nodes)]
+    if "urn_nodes" in quirks:
+        # URN-like instance IRIs (stems ending in ':')
+        nodes = [["iri", "urn:isbn:%d%d" % (i, i)] if (n[0] == "iri" and i % 3 != 1) else n for i, n in enumerate(nodes)]
     if ns_iris:
         # a node whose IRI is exactly a namespace IRI (empty local part), e.g. an ontology node <http://ex.org/ns/>
         nodes = [["iri", NS[i % len(NS)]] if (n[0] == "iri" and i % 3 == 1) else n for i, n in enumerate(nodes)]
@@ -175,7 +178,7 @@ def call_history(draw, thr, one_in=6):
             for _ in range(draw(st.integers(1, 2)))]
 
 
-QUIRKS = ["iri_like_literals", "class_typing", "hash_props", "unicode_iris", "colon_locals", "odd_schemes", "ns_iris", "shared_locals"]
+QUIRKS = ["iri_like_literals", "class_typing", "hash_props", "unicode_iris", "colon_locals", "odd_schemes", "ns_iris", "shared_locals", "urn_nodes"]
 
 
 @st.composite
@@ -243,7 +246,7 @@ def consistent(draw, max_classes=3, max_inst=4, max_props=3, bnode_classes=False
         for n in inst[j]:
             triples.append([n, RDF_TYPE, classes[j]])
     pid = 0
-    dts = ["str", "lang", "integer", "date", "custom"]
+    dts = ["str", "lang", "lang2", "integer", "date", "custom"]     # lang / lang2 share lexical forms under different tags
     for j in range(n_classes):
         for _ in range(draw(st.integers(0, max_props))):
             p = prop_iri(pid)
@@ -329,6 +332,8 @@ def harmless_extras(draw):
             cfg["allow_redundant_or"] = True
     elif k == 3:
         cfg["infer_numeric_types_for_untyped_literals"] = False
+    elif k == 6:
+        cfg["instances_cap"] = 1000       # a cap not smaller than every class changes nothing
     return cfg
 
 
